@@ -43,7 +43,16 @@ NON_REGISTER_USES = ["map b s\n", "map b s[0]\n", "map b s[0:1]\n", "map b s[1:]
                      "map b s[0:1:1]\n", "map b s[1::-1]\n", "map b s\nX b[0]\n", "map b s[0:]\nprepare_all\nX b[0]\nmeasure_all\n",
                      "X s[0]\n", "prepare_all\nX s[0:1]\nmeasure_all\n", "macro m r { X r[0] }\nm s\n"]
 
-TEMPLATES = [hdr + use for _tag, hdr in NON_REGISTERS for use in NON_REGISTER_USES] + [
+# map bounds far beyond anything a register holds, in every position of a slice, counting up and counting down
+HUGE = "99999999999999999999"
+HUGE_SLICES = ["register q[4]\nmap a q[%s]\nprepare_all\nX a[0]\nmeasure_all\n" % sl for sl in (
+    HUGE + ":0:-1", "3:-" + HUGE + ":-1", "3:0:-" + HUGE, HUGE + ":-" + HUGE + ":-1", "0:" + HUGE, "0:" + HUGE + ":2", HUGE + ":", "-" + HUGE + ":2",
+    "0:2:" + HUGE, HUGE + ":" + HUGE + ":" + HUGE, ":" + HUGE + ":-1", HUGE + "::-1")] + [
+    "let b %s\nregister q[4]\nmap a q[b:0:-1]\nprepare_all\nX a[0]\nmeasure_all\n" % HUGE,
+    "let b -%s\nregister q[4]\nmap a q[3:b:-1]\nprepare_all\nX a[0]\nmeasure_all\n" % HUGE,
+    "let n 4\nregister q[n]\nmap a q[%s:0:-1]\nprepare_all\nX a[0]\nmeasure_all\n" % HUGE]
+
+TEMPLATES = HUGE_SLICES + [hdr + use for _tag, hdr in NON_REGISTERS for use in NON_REGISTER_USES] + [
     # literals whose magnitude overflows a float, both signs, in every role a number can play
     "register q[1]\nprepare_all\nRx q[0] -1.0e999\nmeasure_all\n",
     "register q[1]\nprepare_all\nRx q[0] -.5e400\nmeasure_all\n",
